@@ -149,3 +149,171 @@ Example C13_ex_reference :
   [SOk ONop [2; 4; 5; 180; 8; 10; 0; 0]; SOk (OMss 1460) [8; 10; 0; 0];
    SErr (UnexpectedEndOfSlice 8 10 4)].
 Proof. vm_compute. reflexivity. Qed.
+
+(* ========================================================================== *)
+(* Header level (TcpOpt/Header.v on top of the C08 model Roundtrip/Tcp.v):
+   TcpHeader::set_options / set_options_raw / options_iterator / header_len /
+   data_offset / to_bytes / from_slice / read, TcpHeaderSlice::from_slice /
+   options / options_iterator, TcpSlice::from_slice / options / options_iterator /
+   payload.  [h] is ANY header value: its previous option buffer may be longer
+   and hold arbitrary (stale) bytes. *)
+From EP Require Import TcpOpt.Header TcpOpt.HeaderProofs.
+From EP Require Roundtrip.Common Roundtrip.Tcp.
+
+(* set_options: Ok <-> the elements need <= 40 bytes; then data offset = 5 + padded/4,
+   header_len = 20 + padded, to_bytes = the 20 fixed bytes (data offset nibble and NS
+   bit in byte 12) followed by exactly the RFC encodings + END padding; otherwise
+   NotEnoughSpace(required) and the header is unchanged *)
+Theorem C13_header_set_options : forall h els,
+  (required_len els <= 40 ->
+     exists h' bs,
+       set_options h els = Ret (Ok tt, h')
+       /\ same_fixed_fields h h'
+       /\ hdr_data_offset h' = 5 + pad4 (required_len els) / 4
+       /\ hdr_header_len h' = 20 + pad4 (required_len els)
+       /\ Tcp.to_bytes h' = Some bs
+       /\ len bs = hdr_header_len h'
+       /\ take 20 bs = Tcp.fixed_bytes h'
+       /\ rd bs 12 = Some (16 * hdr_data_offset h' + (if Tcp.ns h then 1 else 0))
+       /\ options_area_of bs = wire_list (map to_opt els) ++ padding (required_len els))
+  /\ (40 < required_len els ->
+       set_options h els = Ret (Err (NotEnoughSpace (required_len els)), h))
+  /\ (forall r h', set_options h els = Ret (r, h') -> (r = Ok tt <-> required_len els <= 40)).
+Proof. exact c13_header_set_options. Qed.
+Print Assumptions C13_header_set_options.
+
+(* set_options_raw: Ok <-> <= 40 bytes; the area on the wire and seen by every view
+   is the data + zero padding to a multiple of four; otherwise unchanged *)
+Theorem C13_header_set_options_raw : forall h data,
+  (len data <= 40 ->
+     exists h' bs,
+       set_options_raw h data = Ret (Ok tt, h')
+       /\ same_fixed_fields h h'
+       /\ hdr_data_offset h' = 5 + pad4 (len data) / 4
+       /\ hdr_header_len h' = 20 + pad4 (len data)
+       /\ Tcp.to_bytes h' = Some bs
+       /\ len bs = hdr_header_len h'
+       /\ take 20 bs = Tcp.fixed_bytes h'
+       /\ options_area_of bs = data ++ padding (len data)
+       /\ hdr_options_area h' = Ret (data ++ padding (len data))
+       /\ (forall payload,
+             Tcp.slice_from_slice (bs ++ payload) = Common.Ok bs
+             /\ hs_options bs = Ret (data ++ padding (len data))
+             /\ ts_from_slice (bs ++ payload) = Common.Ok (hdr_header_len h', bs ++ payload)
+             /\ ts_options (hdr_header_len h', bs ++ payload) = Ret (data ++ padding (len data))
+             /\ (Tcp.wf_tcp h = true -> bytes_ok data ->
+                 Tcp.from_slice (bs ++ payload) = Common.Ok (h', payload))))
+  /\ (40 < len data ->
+       set_options_raw h data = Ret (Err (NotEnoughSpace (len data)), h)).
+Proof. exact c13_header_set_options_raw. Qed.
+Print Assumptions C13_header_set_options_raw.
+
+(* the element list survives the WIRE: set_options on any header (field values in
+   the range of their Rust types), to_bytes, any payload behind; TcpHeaderSlice,
+   TcpSlice and TcpHeader::from_slice / read see the header again and all three
+   option iterators yield exactly the compacted elements and leave exactly the END
+   padding (C13_enc_dec composed with C08's tcp_dec_enc) *)
+Theorem C13_header_wire_roundtrip : forall h els payload,
+  Tcp.wf_tcp h = true -> Forall element_ok els -> required_len els <= 40 ->
+  exists h' bs tr,
+    set_options h els = Ret (Ok tt, h')
+    /\ Tcp.to_bytes h' = Some bs
+    /\ Tcp.slice_from_slice (bs ++ payload) = Common.Ok bs
+    /\ hs_options bs = Ret (wire_list (map to_opt els) ++ padding (required_len els))
+    /\ hs_options_iterate bs = Ret (tr, [])
+    /\ ts_from_slice (bs ++ payload) = Common.Ok (hdr_header_len h', bs ++ payload)
+    /\ ts_payload (hdr_header_len h', bs ++ payload) = Ret payload
+    /\ ts_options_iterate (hdr_header_len h', bs ++ payload) = Ret (tr, [])
+    /\ Tcp.from_slice (bs ++ payload) = Common.Ok (h', payload)
+    /\ Tcp.read (bs ++ payload) = Common.Ok (h', payload)
+    /\ hdr_options_iterate h' = Ret (tr, [])
+    /\ map fst tr = map (fun e => Ok (compact e)) els
+    /\ last_rest (wire_list (map to_opt els) ++ padding (required_len els)) tr
+       = padding (required_len els).
+Proof. exact c13_header_wire_roundtrip. Qed.
+Print Assumptions C13_header_wire_roundtrip.
+
+(* any byte string: TcpHeaderSlice::from_slice, TcpSlice::from_slice and
+   TcpHeader::from_slice fail alike or succeed alike, and then options() of both
+   slices and the decoded header's options are the same window
+   [20, header length) of the input and the three iterators yield the same items
+   (none of the unchecked reads / slice indexings of the three paths faults) *)
+Theorem C13_header_iterators_agree : forall s, bytes_ok s ->
+  (forall e, Tcp.slice_from_slice s = Common.Err e ->
+     ts_from_slice s = Common.Err e /\ Tcp.from_slice s = Common.Err e)
+  /\ (forall hs, Tcp.slice_from_slice s = Common.Ok hs ->
+       exists h area tr,
+         Tcp.from_slice s = Common.Ok (h, drop (len hs) s)
+         /\ ts_from_slice s = Common.Ok (len hs, s)
+         /\ ts_header_slice (len hs, s) = Ret hs
+         /\ ts_payload (len hs, s) = Ret (drop (len hs) s)
+         /\ area = take (len hs - 20) (drop 20 s)
+         /\ hs_options hs = Ret area
+         /\ ts_options (len hs, s) = Ret area
+         /\ hdr_options_area h = Ret area
+         /\ iterate area = Ret (tr, [])
+         /\ hs_options_iterate hs = Ret (tr, [])
+         /\ ts_options_iterate (len hs, s) = Ret (tr, [])
+         /\ hdr_options_iterate h = Ret (tr, [])).
+Proof. exact c13_header_iterators_agree. Qed.
+Print Assumptions C13_header_iterators_agree.
+
+(* the two transliterations of struct TcpOptions (TcpOpt/Model.v, Roundtrip/Tcp.v)
+   coincide through the adapter to_c08 / of_c08 *)
+Theorem C13_header_adapter :
+  (forall o, of_c08 (to_c08 o) = o) /\ (forall o, to_c08 (of_c08 o) = o)
+  /\ (forall o, as_slice o = match Tcp.opt_as_slice (to_c08 o) with Some s => Ret s | None => OOB end)
+  /\ (forall o, Tcp.opt_data_offset (to_c08 o) = data_offset o)
+  /\ (forall h, Tcp.header_len h = hdr_header_len h)
+  /\ (forall h, Tcp.data_offset h = hdr_data_offset h)
+  /\ (forall s, try_from_slice s = match Tcp.opt_try_from_slice s with
+                                   | Some o => Ret (Ok (of_c08 o))
+                                   | None => Ret (Err (NotEnoughSpace (len s)))
+                                   end).
+Proof. exact c13_header_adapter. Qed.
+Print Assumptions C13_header_adapter.
+
+(* ---- non-vacuity ---------------------------------------------------------- *)
+(* a header whose option buffer is completely filled with 40 stale bytes 0xff *)
+Definition ex_hdr : Tcp.TcpHeader :=
+  {| Tcp.source_port := 1234; Tcp.destination_port := 80;
+     Tcp.sequence_number := 287454020; Tcp.acknowledgment_number := 4294967295;
+     Tcp.ns := true; Tcp.fin := false; Tcp.syn := true; Tcp.rst := false; Tcp.psh := false;
+     Tcp.ack := true; Tcp.urg := false; Tcp.ece := false; Tcp.cwr := true;
+     Tcp.window_size := 4321; Tcp.checksum := 65535; Tcp.urgent_pointer := 0;
+     Tcp.options := {| Tcp.o_len := 40; Tcp.o_buf := repeat 255 40 |} |}.
+Example C13_ex_hdr_wf : Tcp.wf_tcp ex_hdr = true /\ Tcp.header_len ex_hdr = 60.
+Proof. split; reflexivity. Qed.
+(* shrinking 40 -> 8 option bytes: nothing of the old area shows up *)
+Example C13_ex_hdr_shrink :
+  exists h', set_options ex_hdr [MaximumSegmentSize 1460; WindowScale 7] = Ret (Ok tt, h')
+    /\ hdr_header_len h' = 28 /\ hdr_data_offset h' = 7
+    /\ Tcp.to_bytes h' = Some [4; 210; 0; 80; 17; 34; 51; 68; 255; 255; 255; 255; 113; 146;
+                               16; 225; 255; 255; 0; 0;   2; 4; 5; 180; 3; 3; 7; 0]
+    /\ hs_options_iterate [4; 210; 0; 80; 17; 34; 51; 68; 255; 255; 255; 255; 113; 146;
+                           16; 225; 255; 255; 0; 0;   2; 4; 5; 180; 3; 3; 7; 0]
+       = Ret ([(Ok (MaximumSegmentSize 1460), [3; 3; 7; 0]); (Ok (WindowScale 7), [0])], []).
+Proof. eexists. vm_compute. repeat split; reflexivity. Qed.
+Example C13_ex_hdr_reject :
+  set_options ex_hdr [Timestamp 1 2; Timestamp 3 4; Timestamp 5 6; Timestamp 7 8; Noop]
+  = Ret (Err (NotEnoughSpace 41), ex_hdr)
+  /\ set_options_raw ex_hdr (repeat 1 41) = Ret (Err (NotEnoughSpace 41), ex_hdr).
+Proof. split; vm_compute; reflexivity. Qed.
+(* data offset 15, a timestamp, an unknown option; 3 payload bytes behind *)
+Definition ex_wire : bytes :=
+  [0; 1; 0; 2; 0; 0; 0; 3; 0; 0; 0; 4; 240; 2; 0; 5; 0; 6; 0; 7]
+  ++ [8; 10; 0; 0; 0; 1; 0; 0; 0; 2; 1; 1; 9; 4; 0; 0] ++ repeat 0 24 ++ [170; 187; 204].
+Example C13_ex_views :
+  bytes_ok ex_wire
+  /\ Tcp.slice_from_slice ex_wire = Common.Ok (take 60 ex_wire)
+  /\ ts_from_slice ex_wire = Common.Ok (60, ex_wire)
+  /\ ts_payload (60, ex_wire) = Ret [170; 187; 204]
+  /\ ts_options_iterate (60, ex_wire) = hs_options_iterate (take 60 ex_wire)
+  /\ hs_options_iterate (take 60 ex_wire)
+     = Ret ([(Ok (Timestamp 1 2), drop 30 (take 60 ex_wire));
+             (Ok Noop, drop 31 (take 60 ex_wire)); (Ok Noop, drop 32 (take 60 ex_wire));
+             (Err (UnknownId 9), [])], []).
+Proof.
+  split; [apply bytes_okb_spec; reflexivity|].
+  vm_compute. repeat split; reflexivity.
+Qed.
